@@ -463,6 +463,7 @@ func (e *Exec) deepCopyObject(cc *callCtx) Val {
 	if p, ok := unalias(cc.resT).Underlying().(*types.Pointer); ok {
 		if _, isStruct := unalias(p.Elem()).Underlying().(*types.Struct); isStruct && strings.HasSuffix(p.Elem().String(), "Unstructured") {
 			content := e.freshRef(st, "content")
+			e.markDeepFresh(st, content)
 			n, so := e.heapName(p.Elem())
 			si := e.reg.structOf(p.Elem())
 			e.setComp(st, n, so, Store(e.comp(st, n, so), dst, app(si.ctor, content)))
@@ -651,4 +652,11 @@ func (e *Exec) declDcval() {
 			e.assume(Eq(app("dcval", "nil_any"), "nil_any"), "the deep copy of nil is nil")
 		}
 	}
+}
+
+// markDeepFresh: ghost flag of a JSON map that was produced by a deep copy (DeepCopy / DeepCopyJSON): it and everything reachable
+// from it is private to the copier, so nested writes (SetNestedField with a path) cannot reach a cached object.
+func (e *Exec) markDeepFresh(st *State, ref Term) {
+	c := e.comp(st, "DEEPFRESH", "(Array Int Bool)")
+	e.setComp(st, "DEEPFRESH", "(Array Int Bool)", Store(c, ref, "true"))
 }
